@@ -302,6 +302,23 @@ theorem Full.total_data_within_connection_window (c : Conn) (h : InitF c) (evs :
   rw [(Full.sent_ledgers_are_the_outputs c evs).1] at this
   exact this
 
+/-- **Full.received_ledgers_are_the_frames**: the `received` ledgers are nothing but the increments of the WINDOW_UPDATE
+frames the read loop went through in the run (`runTaken`: the frames `splitFrames` cuts out of the `bytes` events, up to
+where `rdFrames` stops): those on stream 0 for the connection, those on `sid` for the stream -/
+theorem Full.received_ledgers_are_the_frames (c : Conn) (evs : List Event) :
+    (grun (Led.init c) c evs).1.connInc = ((runTaken c evs).map (wuOn 0)).sum ∧
+    ∀ sid, sid ≠ 0 → (grun (Led.init c) c evs).1.strInc sid = ((runTaken c evs).map (wuOn sid)).sum := by
+  obtain ⟨a, b⟩ := grun_inc evs (Led.init c) c
+  exact ⟨by rw [a]; simp [Led.init], fun sid hs => by rw [b sid hs]; simp [Led.init]⟩
+
+/-- **Full.connection_flow_control**, no ghost left: in any run, the DATA octets of all frames the client writes are at
+most 65 535 plus the increments of all WINDOW_UPDATE frames on stream 0 its read loop went through -/
+theorem Full.connection_flow_control (c : Conn) (h : InitF c) (evs : List Event) :
+    dataAll (runFrames (run c evs).2) ≤ 65535 + ((runTaken c evs).map (wuOn 0)).sum := by
+  have h1 := Full.total_data_within_connection_window c h evs
+  rw [(Full.received_ledgers_are_the_frames c evs).1] at h1
+  omega
+
 /-- what `Drv.handshake` builds satisfies the hypothesis -/
 theorem Full.handshake_gives_init (b : Bytes) (c : Conn) (h : Drv.handshake b = some c) : InitF c := handshake_initF h
 
@@ -332,6 +349,10 @@ example : (run {} fullRun).2.map (fun o => (outFrames o).map dataLen) =
 example : (grun (Led.init {}) {} fullRun).1.iws = 66535 ∧ (grun (Led.init {}) {} fullRun).1.connInc = 10000 ∧
     (grun (Led.init {}) {} fullRun).1.connSent = 69535 ∧ (grun (Led.init {}) {} fullRun).1.strInc 1 = 3000 ∧
     (grun (Led.init {}) {} fullRun).1.strSent 1 = 69535 ∧ (run {} fullRun).1.connWindow = 6000 := by decide +kernel
+
+/-- the three frames the read loop went through, and the octets written against them: 69 535 ≤ 65 535 + 10 000 -/
+example : (runTaken {} fullRun).length = 3 ∧ ((runTaken {} fullRun).map (wuOn 0)).sum = 10000 ∧
+    ((runTaken {} fullRun).map (wuOn 1)).sum = 3000 ∧ dataAll (runFrames (run {} fullRun).2) = 69535 := by decide +kernel
 
 end FullModel
 
